@@ -1679,7 +1679,19 @@ def _dpa_batch_rule(
             "dot_product_attention batching rule requires array-like operands"
         )
 
+    n_side = int(bool(has_bias)) + int(bool(has_mask))
+
+    def _lift_side_operand(arg: jax.Array, rank: int) -> jax.Array:
+        # bias / mask are left-padded to the logits' rank by the primitive; the
+        # batch axis has to stay the leading one.
+        missing = rank - arg.ndim
+        if missing > 0:
+            arg = jnp.expand_dims(arg, tuple(range(1, 1 + missing)))
+        return arg
+
     if q.ndim == 4 and k.ndim == 4 and v.ndim == 4:
+        for side_idx in range(3, 3 + n_side):
+            prepared_args[side_idx] = _lift_side_operand(prepared_args[side_idx], 4)
         out = DotProductAttentionPlugin._PRIM.bind(*prepared_args, **params)
         return out, 0
 
@@ -1706,10 +1718,11 @@ def _dpa_batch_rule(
             raise NotImplementedError(
                 "dot_product_attention batching requires array-like bias values"
             )
-        if bias_val.ndim >= 5:
-            merged_args.append(_flatten_first_two_dims(bias_val))
-        else:
-            merged_args.append(bias_val)
+        bias_val = _lift_side_operand(bias_val, 5)
+        bias_val = jnp.broadcast_to(
+            bias_val, (bias_val.shape[0], inner_batch) + tuple(bias_val.shape[2:])
+        )
+        merged_args.append(_flatten_first_two_dims(bias_val))
 
     if has_mask:
         mask_val = prepared_args[idx]
@@ -1718,10 +1731,11 @@ def _dpa_batch_rule(
             raise NotImplementedError(
                 "dot_product_attention batching requires array-like mask values"
             )
-        if mask_val.ndim >= 5:
-            merged_args.append(_flatten_first_two_dims(mask_val))
-        else:
-            merged_args.append(mask_val)
+        mask_val = _lift_side_operand(mask_val, 5)
+        mask_val = jnp.broadcast_to(
+            mask_val, (mask_val.shape[0], inner_batch) + tuple(mask_val.shape[2:])
+        )
+        merged_args.append(_flatten_first_two_dims(mask_val))
 
     if has_query_lengths:
         q_len_val = prepared_args[idx]
